@@ -3,6 +3,11 @@ CONSTANTS NNodes = 1
  MaxMut = 1
  PairStride = 1
  LexStride = 1
+ NumStride = 1
+ RefStride = 1
+ FirstStride = 1
+ VarStride = 1
+ SparseStride = 1
  Seed = 1
  SparseNodes = 1
  SparseOps = {}
